@@ -19,8 +19,11 @@ vars == <<st, in, out>>
 
 \* --------------------------------------------------------------- vocabulary
 \* Candidate ClientID labels.  L63 / L64 stand for labels of 63 and 64
-\* characters, EMPTY for the empty label (".example.com").
-IdLabels    == {"cli", "CLi-9", "a_b", "-ab", "ab-", "L63", "L64", "EMPTY", "9x"}
+\* characters, EMPTY for the empty label (".example.com").  KELVIN / IDOT stand
+\* for labels holding a non-ASCII letter whose Unicode lower-case form is ASCII
+\* (U+212A KELVIN SIGN + "ids", "adm" + U+0130 + "n"): they are not host-name
+\* labels, whatever order the code validates and folds in.
+IdLabels    == {"cli", "CLi-9", "a_b", "-ab", "ab-", "L63", "L64", "EMPTY", "9x", "KELVIN", "IDOT"}
 MCValid     == {"cli", "CLi-9", "L63", "9x", "other", "dns-query", "dns-querycli", "xdns-query"}
 MCLower     == [x \in {"CLi-9"} |-> "cli-9"]
 
@@ -41,7 +44,7 @@ CliNames(h) ==
             <<"cli", "example", "com">>, <<"cli", "example", "org">>}
 
 \* "dns-querycli" / "xdns-query": look-alikes of the resolver segment (prefix / suffix).
-Segs == {"dns-query", "cli", "CLi-9", "a_b", "L64", "..", ".", "", "other", "dns-querycli", "xdns-query"}
+Segs == {"dns-query", "cli", "CLi-9", "a_b", "L64", "..", ".", "", "other", "dns-querycli", "xdns-query", "KELVIN"}
 SmallSegs == {"dns-query", "cli", "..", "", "dns-querycli"}
 
 \* --------------------------------------------------------------- behaviour
